@@ -162,7 +162,7 @@ func checkDiags(cx *lib.Ctx, diags hcl.Diagnostics, files map[string]*hcl.File, 
 		}
 		if t := leaked(d.Detail, sc); t != "" {
 			key := "leak:" + site(d.Summary) + "-detail"
-			if scopeHoldsUnmarked(d.EvalContext, t) && !ownCollectionMarked(d, files) {
+			if _, outer := markedIteration(d, files, t); scopeHoldsUnmarked(d.EvalContext, t) && outer {
 				// the secret reached this evaluation through a child-scope variable (for / dynamic-block
 				// iterator) that was bound without the marks of its collection: a different root cause
 				key += ":via-unmarked-scope-variable"
@@ -201,7 +201,11 @@ func checkDiags(cx *lib.Ctx, diags hcl.Diagnostics, files map[string]*hcl.File, 
 				if ctx := d.EvalContext; ctx != nil && ctx.Parent() != nil {
 					for c := ctx; c != nil && c.Parent() != nil; c = c.Parent() {
 						if v, ok := c.Variables[name]; ok {
-							key = "leak:textwriter-with-for-scope-variable"
+							key = "leak:textwriter-with-child-scope-variable"
+							if own, outer := markedIteration(d, files, t); own || outer {
+								// the recorded root cause: bound from a collection marked only at the top
+								key = "leak:textwriter-with-for-scope-variable"
+							}
 							if ty := v.Type(); ty.IsObjectType() && ty.HasAttribute("key") && ty.HasAttribute("value") && len(ty.AttributeTypes()) == 2 {
 								key = "leak:textwriter-with-dynblock-iterator"
 							}
@@ -234,6 +238,13 @@ var families = []string{
 	`sec_set[0]`, `sec_set[sec_s]`, `sec_s[0]`, `sec_n["a"]`, `sec_s.attr`, `sec_n.attr`, `sec_list.attr`, `sec_objlist.name`, `sec_set.name`, `sec_list.0.x`,
 	`ls[sec_n]`, `ms[sec_s]`, `ob[sec_s]`, `tp[sec_n]`, `ln[sec_ns]`, `{a = 1}[sec_s]`, `[1, 2][sec_n]`,
 	// duplicate object keys in object for-expressions where the key is secret
+	// strings joined by a template directive over a marked collection (one element, several elements) that then
+	// reach a place where values are echoed: a duplicate key, a variable shown by the text writer
+	`{for k in ["%{ for x in sec_tuple1 }${x}%{ endfor }", "%{ for x in sec_tuple1 }${x}%{ endfor }"] : k => 1}`,
+	`{for k in ["%{ for x in sec_list }${x}%{ endfor }", "%{ for x in sec_list }${x}%{ endfor }"] : k => 1}`,
+	`{for k in ["%{ for x in sec_map1 }${x}%{ endfor }", "%{ for k2, x in sec_map1 }${k2}%{ endfor }"] : "%{ for x in sec_tuple1 }${x}%{ endfor }" => k}`,
+	`[for o in ["%{ for x in sec_tuple1 }${x}%{ endfor }"] : o + 1]`, `[for o in ["%{ for x in sec_list }${x}%{ endfor }"] : o.zz]`,
+	`[for o in ["%{ for x in sec_tuple1 if x != "" }${x}%{ endfor }"] : o[0]]`,
 	`{for v in sec_dup : v => 1}`, `{for k, v in sec_dup : v => k}`, `{for v in sec_list : "same" => v}`, `{for k, v in sec_map : "same" => k}`,
 	`{for k, v in sec_map : sec_s => v}`, `{for v in sec_list_el : sec_s => v}`, `{for v in [1, 2] : sec_s => v}`, `{for v in [1, 2] : sec_ns => v}`, `{for v in [1, 2] : sec_n => v}`,
 	`{for v in sec_nlist : "${sec_n}" => v}`, `{for o in sec_objlist : sec_list[0] => o.name}`, `{for k, v in sec_obj : "x" => k}`,
@@ -580,6 +591,73 @@ func ownCollectionMarked(d *hcl.Diagnostic, files map[string]*hcl.File) bool {
 	}
 	v, _, p := evalgen.SafeValue(fe.CollExpr, d.EvalContext.Parent())
 	return p == "" && v.IsMarked()
+}
+
+// markedIteration looks for the recorded root cause around a diagnostic: a for expression whose collection is
+// marked at the top (its iteration variables are then bound without that mark).  own: the diagnostic is the
+// duplicate-key error of such an expression itself; outer: such an expression encloses the place the
+// diagnostic is about.  The enclosing for expressions are found in the parsed source by range; each
+// collection is evaluated in the contexts above the diagnostic's own.
+func markedIteration(d *hcl.Diagnostic, files map[string]*hcl.File, t string) (own, outer bool) {
+	if d.Subject == nil || d.EvalContext == nil {
+		return false, false
+	}
+	// a dynamic block's iterator (an object {key, value} in a child context) that holds the text unmarked: the
+	// same root cause on the dynblock side (elements of a for_each collection marked only at the top)
+	for c := d.EvalContext; c != nil && c.Parent() != nil; c = c.Parent() {
+		for _, v := range c.Variables {
+			if ty := v.Type(); ty.IsObjectType() && ty.HasAttribute("key") && ty.HasAttribute("value") && len(ty.AttributeTypes()) == 2 {
+				if scopeHoldsUnmarked(&hcl.EvalContext{Variables: map[string]cty.Value{"it": v}}, t) {
+					outer = true
+				}
+			}
+		}
+	}
+	f := files[d.Subject.Filename]
+	if f == nil {
+		return false, false
+	}
+	var fors []*hclsyntax.ForExpr
+	collect := func(n hclsyntax.Node) {
+		_ = hclsyntax.VisitAll(n, func(x hclsyntax.Node) hcl.Diagnostics {
+			if fe, ok := x.(*hclsyntax.ForExpr); ok {
+				r := fe.SrcRange
+				if r.Start.Byte <= d.Subject.Start.Byte && d.Subject.End.Byte <= r.End.Byte {
+					fors = append(fors, fe)
+				}
+			}
+			return nil
+		})
+	}
+	if e, diags := hclsyntax.ParseExpression(f.Bytes, d.Subject.Filename, hcl.InitialPos); !diags.HasErrors() {
+		collect(e)
+	} else if cf, diags := hclsyntax.ParseConfig(f.Bytes, d.Subject.Filename, hcl.InitialPos); !diags.HasErrors() {
+		collect(cf.Body.(*hclsyntax.Body))
+	} else if te, diags := hclsyntax.ParseTemplate(f.Bytes, d.Subject.Filename, hcl.InitialPos); !diags.HasErrors() {
+		collect(te)
+	}
+	sort.Slice(fors, func(i, j int) bool {
+		return fors[i].SrcRange.End.Byte-fors[i].SrcRange.Start.Byte < fors[j].SrcRange.End.Byte-fors[j].SrcRange.Start.Byte
+	})
+	for i, fe := range fors {
+		marked := false
+		for c := d.EvalContext; c != nil; c = c.Parent() {
+			v, diags, p := evalgen.SafeValue(fe.CollExpr, c)
+			if p == "" && !diags.HasErrors() && v.IsMarked() {
+				marked = true
+				break
+			}
+		}
+		if !marked {
+			continue
+		}
+		if i == 0 && d.Summary == "Duplicate object key" && fe.KeyExpr != nil && fe.KeyExpr.Range() == *d.Subject {
+			own = true
+		} else {
+			outer = true
+		}
+	}
+	return own, outer
 }
 
 // scopeHoldsUnmarked reports whether some variable of the diagnostic's evaluation context (or a parent)
